@@ -3,7 +3,8 @@ import QipVerif.Util.RatProto
 import QipVerif.Model.Grid
 /-! Driver for the grid/resampling model (C14).  Rationals are `p/q` or `p`; `-` is the empty list.
 
-* `tlist tol=r grids=<g>!<g>…`                   → `ok t,t,…` | `none`
+* `tlist tol=r [kk=1] grids=<g>!<g>…`            → `ok t,t,…` | `none`   (kk=1: a point is dropped when within tol of the last KEPT
+          point, fixes/C14-8; likewise `coeffs`)
 * `fill tol=r [zl=1] [cu=1] oldt=<g> oldc=<g> full=<g>` (zl=1: repaired padding; cu=1: the index catches up over several
           slots, fixes/C14-7; likewise `coeffs`; `readshape … ndmin=2`)
           → `ok c,c,…` | `err index`
@@ -44,7 +45,7 @@ def step (line : String) : String :=
     match fRat? fs "tol", (fStr? fs "grids") with
     | some tol, gs =>
       match (match gs with | none => some [] | some s => (s.splitOn "!").mapM g?) with
-      | some grids => match fullTlist tol grids with
+      | some grids => match fullTlistK (fNat? fs "kk" = some 1) tol grids with
         | none => "none"
         | some T => "ok " ++ showRats T
       | none => "bad-op"
@@ -59,7 +60,7 @@ def step (line : String) : String :=
   | some "coeffs" =>
     match fRat? fs "tol", (fStr? fs "chans").bind (fun s => (s.splitOn "!").mapM chanP?) with
     | some tol, some chans =>
-      match fullCoeffsVW (fNat? fs "zl" = some 1) (fNat? fs "cu" = some 1) tol chans with
+      match fullCoeffsVWK (fNat? fs "zl" = some 1) (fNat? fs "cu" = some 1) (fNat? fs "kk" = some 1) tol chans with
       | .error e => "err " ++ errName e
       | .ok (T, rows) => "ok " ++ showRats T ++ "|" ++ "!".intercalate (rows.map showRats)
     | _, _ => "bad-op"
